@@ -100,6 +100,27 @@ Example C27_nonvacuous :
   /\ snap_sparse (o_fs o2) (matches [pth "b"; pth "a/y"]) ex_t = ex_t.
 Proof. vm_compute. repeat split. Qed.
 
+(** Without the cleanliness hypothesis the statement is false of the faithful model (and
+    of the code, see the known-finding class [C27Chk.known_class]): the removal pass can
+    skip a path, and then assert_eq!(removed_stats.skipped_files, 0) fails after the disk
+    has been partly updated. Witness: tree {x/f, y}, patterns [x], the directory [x]
+    replaced by a file behind jj's back, new patterns [y]. *)
+Definition C27_asserts_full : Prop :=
+  forall f w new, wf_fs f -> WcCore.anchor reserved_names f ->
+    o_res (fst (set_sparse reserved_names f w new)) <> RPanic.
+
+Definition refut_f : fs := [(pth ".jj", EDir); (pth ".jj/repo", EDir); (pth "x", EFile "o" false)].
+Definition refut_w : wc :=
+  mkWc [(pth "x/f", TFile "1" false); (pth "y", TFile "2" false)] [(pth "x/f", false)] [pth "x"].
+
+Lemma C27_asserts_refuted : ~ C27_asserts_full.
+Proof.
+  intros H. apply (H refut_f refut_w [pth "y"]).
+  - apply wf_fs_b_sound. vm_compute. reflexivity.
+  - apply anchor_b_sound. vm_compute. reflexivity.
+  - vm_compute. reflexivity.
+Qed.
+
 Print Assumptions C27_exact_delta.
 Print Assumptions C27_tree_unchanged.
 Print Assumptions C27_snapshot_respects.
